@@ -261,6 +261,12 @@ pub enum Seg {
     Repeat { x: i32, y: i32, n: u32 },
     /// rows whose start column / length drift
     Ragged { x: i32, y: i32, lens: Vec<(i8, u8)> },
+    /// right-to-left run of `n` from (x, y), then `m` pixels left to right starting at x + 1
+    RevThenRight { x: i32, y: i32, n: u32, m: u32 },
+    /// left-aligned rows below each other with the given lengths (around the capacities)
+    Stair { x: i32, y: i32, lens: Vec<u32> },
+    /// points inside a small neighbourhood, with repeats, in arbitrary order
+    Cluster { x: i32, y: i32, d: Vec<(u8, u8)> },
 }
 
 impl Seg {
@@ -292,6 +298,26 @@ impl Seg {
             Seg::Repeat { x, y, n } => {
                 for _ in 0..*n {
                     out.push((*x, *y));
+                }
+            }
+            Seg::RevThenRight { x, y, n, m } => {
+                for i in 0..*n {
+                    out.push((x.wrapping_sub(i as i32), *y));
+                }
+                for i in 0..*m {
+                    out.push((x.wrapping_add(1 + i as i32), *y));
+                }
+            }
+            Seg::Stair { x, y, lens } => {
+                for (r, l) in lens.iter().enumerate() {
+                    for i in 0..*l {
+                        out.push((x.wrapping_add(i as i32), y.wrapping_add(r as i32)));
+                    }
+                }
+            }
+            Seg::Cluster { x, y, d } => {
+                for (dx, dy) in d {
+                    out.push((x.wrapping_add(*dx as i32), y.wrapping_add(*dy as i32)));
                 }
             }
             Seg::Ragged { x, y, lens } => {
@@ -358,6 +384,10 @@ pub fn seg_in(lw: u32, lh: u32, cap: u32) -> BoxedStrategy<Seg> {
         y: y as i32,
         n,
     });
+    let rev_right = (edge_u32(lw - 1), edge_u32(lh - 1), 1u32..6, 1u32..4).prop_map(|(x, y, n, m)| Seg::RevThenRight { x: x as i32, y: y as i32, n, m });
+    let stair_len = prop_oneof![Just(49u32), Just(50u32), Just(51u32), Just(60u32), Just(78u32), Just(99u32), Just(100u32), Just(101u32), 1u32..8, 40u32..110];
+    let stair = (edge_u32(lw - 1), edge_u32(lh - 1), vec(stair_len, 2..5)).prop_map(|(x, y, lens)| Seg::Stair { x: (x / 4) as i32, y: y as i32, lens });
+    let cluster = (edge_u32(lw - 1), edge_u32(lh - 1), vec((0u8..3, 0u8..3), 3..9)).prop_map(|(x, y, d)| Seg::Cluster { x: x as i32, y: y as i32, d });
     prop_oneof![
         5 => run,
         4 => block,
@@ -365,6 +395,9 @@ pub fn seg_in(lw: u32, lh: u32, cap: u32) -> BoxedStrategy<Seg> {
         1 => col,
         2 => scatter,
         1 => rep,
+        1 => rev_right,
+        2 => stair,
+        2 => cluster,
     ]
     .boxed()
 }
@@ -402,8 +435,10 @@ pub fn stream_len(area: u64) -> BoxedStrategy<StreamLen> {
 /// repeat a colour (state carried from one call to the next, e.g. a staged fill pattern, shows up)
 pub fn seed() -> BoxedStrategy<u32> {
     prop_oneof![
-        3 => any::<u32>(),
-        2 => proptest::sample::select(vec![1u32, 2, 3]),
+        6 => any::<u32>(),
+        4 => proptest::sample::select(vec![1u32, 2, 3]),
+        // black, white and uniform-byte colours
+        2 => (0u32..6).prop_map(|i| crate::types::UNIFORM_SEED_BASE + i),
     ]
     .boxed()
 }
